@@ -203,7 +203,7 @@ func (w *cWorld) exchange(kind int, xid uint32, haveXid bool, t0 uint64, pre tim
 	li := w.last
 	hdr := func(oc int, dt time.Duration) L {
 		return L{1, 0, uint64(pre), uint64(oc), uint64(dt), uint64(li.yiaddr), uint64(li.sid), b2n(li.mask != nil), uint64(li.mtu),
-			uint64(li.lease) * 1e9, uint64(li.t1) * 1e9, uint64(li.t2) * 1e9}
+			uint64(li.lease) * 1e9, uint64(li.t1) * 1e9, uint64(li.t2) * 1e9, t0, uint64(kind)}
 	}
 	junk := func() { // replies that must be ignored, before the decisive one
 		if haveXid && r.Intn(2) == 0 {
@@ -298,18 +298,18 @@ func (w *cWorld) onSend(f rsocks.Frame) {
 			switch w.r.Intn(8) {
 			case 0:
 				d := ms(1 + w.r.Intn(190))
-				w.record(L{2, 0, 2, uint64(d)}, nil)
+				w.record(L{2, 0, 2, uint64(d), now}, nil)
 				answer([]byte{2, 0xcc, 0, 0, 0, 1}, d)
 			case 1:
 				d := ms(1 + w.r.Intn(190))
-				w.record(L{2, 0, 1, uint64(d)}, nil)
+				w.record(L{2, 0, 1, uint64(d), now}, nil)
 				answer(w.iface.HardwareAddr, d)
 			case 2:
 				d := ms(1 + w.r.Intn(190))
-				w.record(L{2, 1, 3, uint64(d)}, nil)
+				w.record(L{2, 1, 3, uint64(d), now}, nil)
 				w.after(d, func() { ifmon.VerifLinkUp(w.name) })
 			default:
-				w.record(L{2, 0, 0, 0}, nil)
+				w.record(L{2, 0, 0, 0, now}, nil)
 			}
 			return
 		}
@@ -367,7 +367,7 @@ func (w *cWorld) onSend(f rsocks.Frame) {
 	if kind != 3 && w.arpPending { // a renewal ran into its deadline before its first transmission
 		w.arpPending = false
 		li := w.last
-		w.record(L{1, 0, uint64(w.renewPre), 2, 0, uint64(li.yiaddr), uint64(li.sid), b2n(li.mask != nil), uint64(li.mtu), uint64(li.lease) * 1e9, uint64(li.t1) * 1e9, uint64(li.t2) * 1e9}, nil)
+		w.record(L{1, 0, uint64(w.renewPre), 2, 0, uint64(li.yiaddr), uint64(li.sid), b2n(li.mask != nil), uint64(li.mtu), uint64(li.lease) * 1e9, uint64(li.t1) * 1e9, uint64(li.t2) * 1e9, w.renewT0, 3}, nil)
 	}
 	w.acts = append(w.acts, L{4, now, uint64(kind)})
 	if kind == 3 {
@@ -394,7 +394,7 @@ func (w *cWorld) onIfcall(op string, n int, c *libif.Ifconfig) error {
 		w.renewOn = false
 	case "up":
 		w.acts = append(w.acts, L{2, now})
-		w.record(L{5, 0}, nil)
+		w.record(L{5, 0, now}, nil)
 	case "setiface":
 		w.renewOn = false
 		ok := w.r.Intn(6) != 0
@@ -410,21 +410,21 @@ func (w *cWorld) onIfcall(op string, n int, c *libif.Ifconfig) error {
 		if !ok {
 			if w.r.Intn(2) == 0 { // link-up during the 30 s back-off
 				d := ms(1000 + w.r.Intn(28000))
-				w.record(L{3, 1, 0, 1, uint64(d)}, nil)
+				w.record(L{3, 1, 0, 1, uint64(d), now}, nil)
 				w.after(d, func() { ifmon.VerifLinkUp(w.name) })
 			} else {
-				w.record(L{3, 0, 0, 0, 0}, nil)
+				w.record(L{3, 0, 0, 0, 0, now}, nil)
 			}
 			return fmt.Errorf("scripted SetIface failure")
 		}
-		w.record(L{3, 0, 1, 0, 0}, nil)
+		w.record(L{3, 0, 1, 0, 0, now}, nil)
 		// bound: sleeping until T1, possibly woken by a link-up
 		if w.r.Intn(4) == 0 {
 			d := ms(1000 + w.r.Intn(24000))
-			w.record(L{4, 1, 1, uint64(d)}, nil)
+			w.record(L{4, 1, 1, uint64(d), now}, nil)
 			w.after(d, func() { ifmon.VerifLinkUp(w.name) })
 		} else {
-			w.record(L{4, 0, 0, 0}, nil)
+			w.record(L{4, 0, 0, 0, now}, nil)
 		}
 	}
 	return nil
@@ -491,6 +491,12 @@ func runClientScript(t *testing.T, c *caseWriter, vl *violationLog, seedv int64)
 			}
 		}
 		c.add(1501, "script", len(w.events) > 3, a, outs)
+		// the property read off the two records directly (spec/MonitorC15.v): [croute; horizon; number of actions], actions, record with instants
+		ma := []interface{}{L{b2n(w.croute), horizon, uint64(len(outs))}}
+		ma = append(ma, outs...)
+		ma = append(ma, a[1:]...)
+		c.add(1510, "history", len(w.events) > 3, ma, []interface{}{L{1}})
+		c.add(1511, "model-history", len(w.events) > 3, a, []interface{}{L{1}})
 		// C16 (timing): retransmissions of one exchange reuse the xid, are at least 700 ms apart with non-decreasing spacing,
 		// and stop when the exchange has ended
 		for xid, ts := range w.frames {
